@@ -665,7 +665,8 @@ impl Formattable for &InterpolatedString {
                     formatter.push(s);
                 }
                 InterpolatedStringItem::IdentifierPath(path) => {
-                    formatter.push('{').push(&path.data).push('}');
+                    // (with the trivia the parser accepts in front of the path: a comment there is kept)
+                    formatter.push('{').fmt(path).push('}');
                 }
             }
         }
